@@ -9,6 +9,7 @@
 
 #include "common/cases.h"
 #include "expr_common.h"
+#include "common/shadow.h"
 
 using namespace vc;
 namespace bo = bspline::operators;
@@ -86,16 +87,6 @@ static ex::NP expr_ast(int e) {
     default: return SUB(MUL(D(1), X(1)), MUL(X(1), D(1)));
   }
 }
-// ----- shadows (all quantities non-negative, polynomials in u = |x - xm|)
-using Sh = std::vector<R>;
-static R absr(const R &r) { return r < 0 ? R(-r) : r; }
-static Sh sh_abs(const std::vector<R> &c) { Sh s; for (auto &v : c) s.push_back(absr(v)); return s; }
-static Sh sh_add(const Sh &a, const Sh &b) { Sh r(std::max(a.size(), b.size()), R(0)); for (size_t i = 0; i < a.size(); i++) r[i] += a[i]; for (size_t i = 0; i < b.size(); i++) r[i] += b[i]; return r; }
-static Sh sh_mul(const Sh &a, const Sh &b) { if (a.empty() || b.empty()) return {}; Sh r(a.size() + b.size() - 1, R(0)); for (size_t i = 0; i < a.size(); i++) for (size_t j = 0; j < b.size(); j++) r[i + j] += a[i] * b[j]; return r; }
-static Sh sh_scale(const Sh &a, const R &c) { Sh r(a); for (auto &v : r) v *= absr(c); return r; }
-static Sh sh_dx(const Sh &a, size_t n) { Sh r; for (size_t i = 0; i + n < a.size(); i++) { R f(1); for (size_t k = 1; k <= n; k++) f *= R((long)(i + k)); r.push_back(f * a[i + n]); } if (r.empty()) r.push_back(R(0)); return r; }
-static Sh sh_x(const Sh &a, size_t n, const R &xmabs) { Sh r(a); Sh lin{xmabs, R(1)}; for (size_t k = 0; k < n; k++) r = sh_mul(r, lin); return r; }
-static R sh_sum(const Sh &a, const R &h) { R s(0), p(1); for (auto &v : a) { s += v * p; p *= h; } return s; }
 static Sh sh_expr(const ex::NP &e, const Sh &s, const R &xmabs, const Sh &f) {
   using namespace ex;
   switch (e->k) {
@@ -111,12 +102,6 @@ static Sh sh_expr(const ex::NP &e, const Sh &s, const R &xmabs, const Sh &f) {
     default: return sh_expr(e->l, s, xmabs, f);
   }
 }
-static R sh_integral(const Sh &a, const R &h) {  // integral of sum a_k |u|^k over [-h,h]
-  R s(0), p(h);
-  for (size_t k = 0; k < a.size(); k++) { s += 2 * a[k] * p / R((long)(k + 1)); p *= h; }
-  return s;
-}
-
 template <class T, size_t oa, size_t ob>
 static Out run(const FloatC &c) {
   auto grid = make_grid<T>(c.g);
